@@ -125,8 +125,13 @@ impl RegexMatcher {
             syntax.disable_behavior(SyntaxBehavior::SYNTAX_BEHAVIOR_NOT_NEWLINE_IN_NEGATIVE_CC);
             options |= RegexOptions::REGEX_OPTION_MULTILINE;
         }
-        // Report errors against the pattern as given.
-        Regex::with_options(pattern, options, &syntax)?;
+        // Report errors against the pattern as given (but for the spelling of
+        // the operators the engine would not take for what they are).
+        Regex::with_options(
+            &spell_basic_operators(pattern, regex_type),
+            options,
+            &syntax,
+        )?;
         check_intervals(pattern, regex_type)?;
         check_back_references(pattern, regex_type)?;
         check_classes(pattern, regex_type)?;
@@ -262,45 +267,147 @@ fn check_back_references(pattern: &str, regex_type: RegexType) -> Result<(), Box
 /// An interval whose lower bound exceeds its upper bound, or a bound above
 /// RE_DUP_MAX, is an invalid regular expression; the engine repeats the former
 /// backwards and accepts the latter up to 100000.
-fn check_intervals(pattern: &str, regex_type: RegexType) -> Result<(), Box<dyn Error>> {
+fn check_bounds(interval: &str, pattern: &str) -> Result<(), Box<dyn Error>> {
     const RE_DUP_MAX: u64 = 0x7fff;
-    let open = match regex_type {
-        RegexType::Emacs => return Ok(()),
-        RegexType::PosixExtended => "{",
-        RegexType::Grep | RegexType::PosixBasic => "\\{",
-    };
-    let mut rest = pattern;
-    while let Some(ch) = rest.chars().next() {
-        if let Some(interval) = rest.strip_prefix(open) {
-            let digits = |s: &str| s.len() - s.trim_start_matches(|c: char| c.is_ascii_digit()).len();
-            let low = &interval[..digits(interval)];
-            let after_low = &interval[low.len()..];
-            let high = after_low
-                .strip_prefix(',')
-                .map(|s| &s[..digits(s)])
-                .unwrap_or(low);
-            let bound = |s: &str| s.parse::<u64>().unwrap_or(u64::MAX);
-            if !low.is_empty() && !high.is_empty() && bound(low) > bound(high)
-                || [low, high].iter().any(|b| !b.is_empty() && bound(b) > RE_DUP_MAX)
-            {
-                return Err(From::from(format!(
-                    "Invalid interval ({low},{high}) in regular expression {pattern:?}"
-                )));
-            }
-            rest = interval;
-        } else if ch == '\\' {
-            // (the quoted character is not looked at)
-            let mut chars = rest.chars();
-            chars.next();
-            chars.next();
-            rest = chars.as_str();
-        } else if ch == '[' {
-            rest = after_bracket(&rest[1..], regex_type);
-        } else {
-            rest = &rest[ch.len_utf8()..];
-        }
+    let digits = |s: &str| s.len() - s.trim_start_matches(|c: char| c.is_ascii_digit()).len();
+    let low = &interval[..digits(interval)];
+    let after_low = &interval[low.len()..];
+    let high = after_low
+        .strip_prefix(',')
+        .map(|s| &s[..digits(s)])
+        .unwrap_or(low);
+    let bound = |s: &str| s.parse::<u64>().unwrap_or(u64::MAX);
+    if !low.is_empty() && !high.is_empty() && bound(low) > bound(high)
+        || [low, high].iter().any(|b| !b.is_empty() && bound(b) > RE_DUP_MAX)
+    {
+        return Err(From::from(format!(
+            "Invalid interval ({low},{high}) in regular expression {pattern:?}"
+        )));
     }
     Ok(())
+}
+
+/// The intervals of a pattern: their bounds, and in the syntaxes that write
+/// them "\\{" where they stand.  Where there is nothing to repeat GNU's grep
+/// syntax takes "\\{" for a brace; its posix-basic refuses it there, and an
+/// interval or "*" directly behind another repetition as well.
+fn check_intervals(pattern: &str, regex_type: RegexType) -> Result<(), Box<dyn Error>> {
+    match regex_type {
+        RegexType::Emacs => Ok(()),
+        RegexType::PosixExtended => {
+            let mut rest = pattern;
+            while let Some(ch) = rest.chars().next() {
+                if let Some(interval) = rest.strip_prefix('{') {
+                    check_bounds(interval, pattern)?;
+                    rest = interval;
+                } else if ch == '\\' {
+                    // (the quoted character is not looked at)
+                    let mut chars = rest.chars();
+                    chars.next();
+                    chars.next();
+                    rest = chars.as_str();
+                } else if ch == '[' {
+                    rest = after_bracket(&rest[1..], regex_type);
+                } else {
+                    rest = &rest[ch.len_utf8()..];
+                }
+            }
+            Ok(())
+        }
+        RegexType::Grep | RegexType::PosixBasic => {
+            let strict = matches!(regex_type, RegexType::PosixBasic);
+            let mut after_repetition = false;
+            for piece in basic_pieces(pattern, regex_type) {
+                let repetition = match piece {
+                    BasicPiece::BraceAtStart if strict => true,
+                    BasicPiece::Repeat(text) if text == "*" || text.starts_with("\\{") => {
+                        after_repetition && strict
+                    }
+                    _ => false,
+                };
+                if repetition {
+                    return Err(From::from(format!(
+                        "Invalid preceding regular expression in {pattern:?}"
+                    )));
+                }
+                if let BasicPiece::Repeat(text) = piece {
+                    if let Some(interval) = text.strip_prefix("\\{") {
+                        check_bounds(interval, pattern)?;
+                    }
+                }
+                after_repetition = matches!(piece, BasicPiece::Repeat(_));
+            }
+            Ok(())
+        }
+    }
+}
+
+/// A piece of a pattern in grep or posix-basic syntax, where the operators are
+/// written with a backslash and only are operators where there is something
+/// to repeat.
+#[derive(Clone, Copy)]
+enum BasicPiece<'a> {
+    /// "*", "\\+", "\\?" or a whole interval, behind something to repeat.
+    Repeat(&'a str),
+    /// "\\{" with nothing to repeat: at the start of the pattern, of a group or
+    /// of an alternative, also behind the "^" that anchors it.
+    BraceAtStart,
+    /// Anything else: a character (quoted or not), a bracket expression, "\\(",
+    /// "\\)", "\\|", an operator with nothing to repeat.
+    Other(&'a str),
+}
+
+fn basic_pieces(pattern: &str, regex_type: RegexType) -> Vec<BasicPiece<'_>> {
+    let newline_alt = matches!(regex_type, RegexType::Grep);
+    let mut pieces = Vec::new();
+    let mut start = true;
+    let mut rest = pattern;
+    while let Some(ch) = rest.chars().next() {
+        let quoted = rest[ch.len_utf8()..].chars().next().filter(|_| ch == '\\');
+        let (len, opens, repeats) = match (ch, quoted) {
+            ('\\', Some('(' | '|')) => (2, true, false),
+            ('\n', _) if newline_alt => (1, true, false),
+            ('^', _) if start => (1, true, false),
+            ('*', _) => (1, false, true),
+            ('\\', Some('+' | '?')) => (2, false, true),
+            ('\\', Some('{')) if start => (2, false, true),
+            ('\\', Some('{')) => {
+                let end = rest.find("\\}").map_or(rest.len(), |i| i + 2);
+                (end, false, true)
+            }
+            ('\\', Some(c)) => (1 + c.len_utf8(), false, false),
+            ('[', _) => (rest.len() - after_bracket(&rest[1..], regex_type).len(), false, false),
+            _ => (ch.len_utf8(), false, false),
+        };
+        let text = &rest[..len];
+        pieces.push(if repeats && start && text == "\\{" {
+            BasicPiece::BraceAtStart
+        } else if repeats && !start {
+            BasicPiece::Repeat(text)
+        } else {
+            BasicPiece::Other(text)
+        });
+        start = opens;
+        rest = &rest[len..];
+    }
+    pieces
+}
+
+/// The pattern with the operators the engine reads differently written the way
+/// it reads them: in grep syntax a "\\{" with nothing to repeat is a brace.
+fn spell_basic_operators(pattern: &str, regex_type: RegexType) -> String {
+    if !matches!(regex_type, RegexType::Grep | RegexType::PosixBasic) {
+        return pattern.to_owned();
+    }
+    let strict = matches!(regex_type, RegexType::PosixBasic);
+    basic_pieces(pattern, regex_type)
+        .into_iter()
+        .map(|piece| match piece {
+            BasicPiece::BraceAtStart if !strict => "{",
+            BasicPiece::BraceAtStart => "\\{",
+            BasicPiece::Repeat(text) | BasicPiece::Other(text) => text,
+        })
+        .collect()
 }
 
 /// What follows the bracket expression whose "[" has just been read (nothing
@@ -342,6 +449,7 @@ fn inside_group(pattern: &str, regex_type: RegexType) -> String {
     let extended = matches!(regex_type, RegexType::PosixExtended);
     let classes = !matches!(regex_type, RegexType::Emacs);
     let newline_alt = matches!(regex_type, RegexType::Grep);
+    let pattern = &spell_basic_operators(pattern, regex_type);
     let mut result = String::with_capacity(pattern.len());
     let mut depth = 0usize;
     let mut chars = pattern.chars().peekable();
